@@ -604,6 +604,8 @@ fn scen_c09(s: &mut Session, n: u64) {
         }
         s.init("A", a);
         s.step("dt_get", "A", "A", None, json!({}));
+        s.step("dt_as_ymdhms", "A", "A", None, json!({}));
+        s.step("dt_fmt_get", "A", "A", None, json!({}));
         for _ in 0..6 {
             if s.rng.chance(2, 3) {
                 let f = *s.rng.pick(&DT_SET_FIELDS);
@@ -614,6 +616,8 @@ fn scen_c09(s: &mut Session, n: u64) {
                 s.step("dt_clear", "A", "A", Some("A"), json!({"f": f}));
             }
             s.step("dt_get", "A", "A", None, json!({}));
+            s.step("dt_as_ymdhms", "A", "A", None, json!({}));
+            s.step("dt_fmt_get", "A", "A", None, json!({}));
         }
         let t = s.time_val(true);
         s.init("T", t);
@@ -656,6 +660,8 @@ fn scen_c10(s: &mut Session, n: u64) {
             let which = if s.rng.chance(2, 3) { "dt_set_offset" } else { "dt_as_offset" };
             s.step(which, "A", "A", Some("A"), json!({"o": o}));
             s.step("dt_get", "A", "A", None, json!({}));
+            s.step("dt_as_ymdhms", "A", "A", None, json!({}));
+            s.step("dt_fmt_get", "A", "A", None, json!({}));
             s.step("dt_ts", "A", "A", None, json!({}));
             s.step("dt_cmp", "A", "B", None, json!({}));
             let u = *s.rng.pick(&UNITS7);
@@ -699,7 +705,13 @@ fn scen_c05(s: &mut Session, n: u64) {
     while s.i < n {
         let d = s.date_val();
         s.init("D", d);
-        let a = s.dt_val(false);
+        // half of the DateTimes carry an offset (the day of month may then differ between the stored and the local date)
+        let with_off = s.rng.chance(1, 2);
+        let mut a = s.dt_val(with_off);
+        if with_off && s.rng.chance(1, 2) {
+            a["dn"] = json!(month_end_dn(s));
+            a["sod"] = json!(*s.rng.pick(&[0i64, 1800, 3599, 43_200, 82_800, 84_600, 86_399]));
+        }
         s.init("A", a);
         for _ in 0..5 {
             let cnt = gen_month_count(s);
@@ -739,7 +751,32 @@ fn scen_c07(s: &mut Session, n: u64) {
         s.step("date_months_since", "E", "D", None, json!({}));
         s.step("date_years_since", "D", "E", None, json!({}));
         s.step("date_years_since", "E", "D", None, json!({}));
+        // month ends, times of day on both sides of each other, and offsets: the bracket relation with add_months
+        for _ in 0..3 {
+            let off = s.rng.chance(1, 2);
+            let mut p = s.dt_val(off);
+            let mut q = s.dt_val(off);
+            p["dn"] = json!(month_end_dn(s));
+            q["dn"] = json!(if s.rng.chance(1, 2) { month_end_dn(s) } else { p["dn"].as_i64().unwrap() + s.rng.range_i64(-70, 70) });
+            if s.rng.chance(1, 2) {
+                q["sod"] = json!((p["sod"].as_i64().unwrap() + s.rng.range_i64(-2, 2)).clamp(0, 86_399));
+            }
+            s.init("P", p);
+            s.init("Q", q);
+            s.step("dt_months_bracket", "P", "Q", None, json!({}));
+            s.step("dt_months_since", "P", "Q", None, json!({}));
+            s.step("dt_years_since", "Q", "P", None, json!({}));
+        }
     }
+}
+
+/// Day number of a day at or next to a month end of a year near today, near 0001-01-01 or BC (through the public API).
+fn month_end_dn(s: &mut Session) -> i64 {
+    let y = *s.rng.pick(&[2019i32, 2020, 2021, 2022, 2023, 2024, 2025, 1, 2, 4, -1, -4, -5, 1900, 2000]);
+    let m = 1 + s.rng.below(12) as u32;
+    let d = *s.rng.pick(&[1u32, 2, 27, 28, 28, 29, 30, 31]);
+    let date = astrolabe::Date::from_ymd(y, m, d).or_else(|_| astrolabe::Date::from_ymd(y, m, 28)).unwrap();
+    astrolabe::DateUtilities::timestamp(&date).div_euclid(86_400) + 719_162
 }
 
 fn gen_u32(s: &mut Session, max_valid: u32) -> u32 {
